@@ -11,10 +11,18 @@ fn main() {
     let count = match chk.phases(tier)[phase].kind { PhaseKind::Exhaustive { count } => count, _ => 0 };
     let mut shown = 0;
     for i in 0..count.min(max) {
-        let r = chk.render(tier, phase, &Input::Index(i));
-        if r.contains(&needle) {
+        let mut r = chk.render(tier, phase, &Input::Index(i));
+        let mut pre = None;
+        if r.starts_with("phase ") || r.starts_with("Index(") {
+            // the check renders the case only while running it
             let mut ctx = CaseCtx::new(true);
             chk.run(tier, phase, &Input::Index(i), &mut ctx);
+            r = ctx.rendered.clone().unwrap_or(r);
+            pre = Some(ctx);
+        }
+        if r.contains(&needle) {
+            let mut ctx = match pre { Some(c) => c, None => CaseCtx::new(true) };
+            if ctx.classes.is_empty() && ctx.failures.is_empty() { chk.run(tier, phase, &Input::Index(i), &mut ctx); }
             println!("idx={} {} classes={:?} failures={:?}", i, r, ctx.classes, ctx.failures.iter().map(|f| f.sig.clone()).collect::<Vec<_>>());
             shown += 1;
             if shown >= 20 { break; }
